@@ -488,7 +488,7 @@ pub fn run(tier: Tier) -> i32 {
                        "expected": {"result": "ok", "code": sut::hex(&r.code), "message_markers": r.markers}, "observed": o1.to_json()})
             });
         }
-        if !was_bad && (density == 0 || density == 3) && !trace.is_empty() && (tier.thorough() || trace.len() <= 4) && !trace.contains(&Act::Exit) {
+        if !was_bad && (density == 0 || density == 3) && !trace.is_empty() && trace.len() <= if tier.thorough() { 6 } else { 4 } && !trace.contains(&Act::Exit) {
             // the same conditional structure read from an included file (the file begins with
             // the first directive and ends with the last one): same image, same messages
             let (a, b) = r.cut;
@@ -532,7 +532,7 @@ pub fn run(tier: Tier) -> i32 {
     rep.assume("conditions on literals, .equ constants and .define flags; a condition that must not be evaluated may be ill-formed");
     rep.assume("messages are compared by their marker text, not by format or line number");
     rep.assume("directive lines carry rotating trailing comments (none, with a colon, glued without a blank, //, /* */)");
-    rep.assume("the renderings with a payload after every directive and with adjacent directives are also built with the conditional structure in an included file (traces without .exit, which ends only the file it stands in; quick tier: traces of up to 4 directives)");
+    rep.assume("the renderings with a payload after every directive and with adjacent directives are also built with the conditional structure in an included file (traces without .exit, which ends only the file it stands in; traces of up to 4 directives, thorough 6)");
     rep.assume("every trace is rendered four times: with a payload line after every directive, after every second one (two phases) and with directly adjacent directives");
     let coverage = cov(json!({
         "states": ex.states,
